@@ -1,9 +1,115 @@
 package main
 
 import (
+	"flag"
 	"fmt"
+	"os"
+	"runtime"
+	"strings"
+	"time"
 
-	_ "golang.org/x/tools/go/packages"
+	"bngvc/check"
+	"bngvc/govc"
+	"bngvc/smt"
 )
 
-func main() { fmt.Println("bngvc") }
+func usage() {
+	fmt.Fprintln(os.Stderr, `usage:
+  bngvc check -property Cxx [-tier quick|thorough] [-repo /repo]
+  bngvc sweep [-repo /repo] [-v] <pkgpattern> [func ...]     (debug: safety sweep of functions)
+  bngvc func  [-repo /repo] [-v] <pkgpattern> <func ...>     (debug: verify functions against contracts)
+  bngvc selftest
+  bngvc list`)
+	os.Exit(2)
+}
+
+func main() {
+	if len(os.Args) < 2 {
+		usage()
+	}
+	switch os.Args[1] {
+	case "sweep", "func":
+		debugCmd(os.Args[1], os.Args[2:])
+	case "check":
+		os.Exit(check.Main(os.Args[2:]))
+	case "list":
+		check.List()
+	case "selftest":
+		os.Exit(check.SelfTest(os.Args[2:]))
+	case "replay":
+		os.Exit(check.ReplayCmd(os.Args[2:]))
+	default:
+		usage()
+	}
+}
+
+func debugCmd(mode string, args []string) {
+	fs := flag.NewFlagSet(mode, flag.ExitOnError)
+	repo := fs.String("repo", "/repo", "repository")
+	verbose := fs.Bool("v", false, "verbose")
+	dump := fs.String("dump", "", "dump queries of failing obligations into this dir")
+	timeout := fs.Duration("timeout", 10*time.Second, "per-obligation timeout")
+	fs.Parse(args)
+	rest := fs.Args()
+	if len(rest) < 1 {
+		usage()
+	}
+	t0 := time.Now()
+	prog, err := govc.Load(*repo, strings.Split(rest[0], ","))
+	if err != nil {
+		fmt.Fprintln(os.Stderr, err)
+		os.Exit(2)
+	}
+	fmt.Printf("loaded in %.1fs, %d functions\n", time.Since(t0).Seconds(), len(prog.Funcs))
+	var keys []string
+	if len(rest) > 1 {
+		for _, f := range rest[1:] {
+			if _, ok := prog.Funcs[f]; !ok {
+				fmt.Fprintf(os.Stderr, "no function %s\n", f)
+				os.Exit(2)
+			}
+			keys = append(keys, f)
+		}
+	} else {
+		keys = prog.SortedFuncKeys()
+	}
+	runner := &check.Runner{Solver: smt.NewSolver(*timeout, ""), Workers: runtime.NumCPU()}
+	opt := govc.Options{Property: "DBG", Canary: true}
+	if mode == "sweep" {
+		opt.Sweep, opt.NoPanic, opt.Variants = true, true, true
+	}
+	for _, k := range keys {
+		fo := runner.VerifyFunction(prog, prog.Funcs[k], opt)
+		fmt.Println(fo.Summary())
+		for _, r := range fo.Results {
+			if r.O.Canary {
+				if r.R.Status == "unsat" {
+					fmt.Printf("    CANARY %s: exit proved unreachable (vacuous?)\n", r.O.ID)
+				}
+				continue
+			}
+			if r.R.Status != "unsat" || *verbose {
+				fmt.Printf("    %-7s %s  @%s  (%s %.2fs)\n", r.R.Status, r.O.ID, r.O.Pos, r.R.Solver, r.R.TimeS)
+				if r.R.Status == "sat" && len(r.R.Values) > 0 {
+					fmt.Printf("            model: %v\n", r.R.Values)
+				}
+				if r.R.Status == "unknown" {
+					fmt.Printf("            outputs: %v\n", r.R.Outputs)
+				}
+				if *dump != "" && r.R.Status != "unsat" {
+					os.MkdirAll(*dump, 0o755)
+					os.WriteFile(*dump+"/"+smt.Sanitize(r.O.ID)+".smt2", []byte(r.Query), 0o644)
+				}
+			}
+		}
+		if *verbose {
+			for _, n := range fo.Notes {
+				fmt.Println("    note:", n)
+			}
+			for _, d := range fo.Kept {
+				fmt.Println("    kept:", d)
+			}
+		}
+	}
+	fmt.Printf("total %.1fs\n", time.Since(t0).Seconds())
+}
